@@ -5,12 +5,81 @@ from . import remoteclient as rc
 FORMULAS = {'NotifyInOrder', 'ReadySetsNext', 'NotifyAllInOrder', 'BurstInOrder', 'FromDeclaredId', 'ResumePointSurvives', 'NothingElseDelivered', 'HandlersAgree', 'NoPanic'}
 
 
+HQ_DIRECTED = [
+    # notifications pile up behind a held handler call, the connection is lost, the new connection's accept must wait its turn
+    ('backlog-then-reconnect', [('Accept', 0, ''), ('Ready', 1, ''), ('Hold', 0, ''), ('Notify', 1, 'tx'), ('Notify', 2, 'tx'), ('Notify', 3, 'upd'), ('Notify', 9, 'hdrs'),
+                                ('Drop', 0, ''), ('Accept', 0, ''), ('Notify', 4, 'tx'), ('Release', 0, ''), ('Ready', 5, ''), ('Notify', 5, 'upd')]),
+    ('backlog-two-reconnects', [('Accept', 0, ''), ('Ready', 1, ''), ('Notify', 1, 'tx'), ('Hold', 0, ''), ('Notify', 2, 'upd'), ('Notify', 3, 'tx'), ('Drop', 0, ''),
+                                ('Accept', 0, ''), ('Drop', 0, ''), ('Accept', 0, ''), ('Notify', 7, 'hdrs'), ('Release', 0, ''), ('Notify', 4, 'tx')]),
+    ('held-before-accept', [('Hold', 0, ''), ('Notify', 8, 'hdrs'), ('Accept', 0, ''), ('Notify', 1, 'tx'), ('Release', 0, ''), ('Ready', 2, ''), ('Notify', 2, 'tx')]),
+]
+
+
+def handler_queue(chk, thorough):
+    """C17 with a slow application (spec/HandlerQueue.tla): a handler call is held, notifications and the accept of a new connection
+    pile up; the handler must see everything in the order the service sent it."""
+    import json
+    import os
+    from vf import pipeline
+    m = None
+    if not os.environ.get('VERIF_SKIP_MODEL'):
+        m = pipeline.model_check(chk, 'HandlerQueue', 'MC_HandlerQueue_quick.cfg', workers=12, timeout=1500, heap='16g',
+                                 subst={'MaxSteps = 6': 'MaxSteps = 7'} if thorough else None)
+        if not m.ok:
+            chk.infra('model checking HandlerQueue did not pass: %s %s' % (m.kind, m.violated))
+    scripts = []
+    for k in range(3 if thorough else 1):
+        ss = pipeline.sim_scripts(chk, 'HandlerQueue', 'Sim_HandlerQueue.cfg', num=60, depth=24, seed=chk.seed * 100 + 71 + k, prefix='hq')
+        scripts += [{'id': s['id'], 'steps': s['steps']} for s in ss]
+    scripts += [{'id': 'directed-' + n, 'steps': [{'a': a, 'k': k2, 'kind': kind} for a, k2, kind in st]} for n, st in HQ_DIRECTED]
+    lines, _ = pipeline.replay_parallel(chk, 'client', 'TestVerifReplayHandlerQueue', {}, scripts, nproc=12)
+    chk.log('replayed %d slow-handler scenarios on the real client: %d trace lines' % (len(scripts), len(lines)))
+    bad, rej = [], []
+    for sel, rs, r in pipeline.tlc_lines_parallel(chk, 'Props_HandlerQueue', 'Props_HandlerQueue.cfg', lines, 'props_result.json', 4, 900):
+        bad += [(f, sel[j - 1]) for f, j in rs['bad']]
+    for sel, rs, r in pipeline.tlc_lines_parallel(chk, 'Trace_HandlerQueue', 'Trace_HandlerQueue.cfg', lines, 'trace_result.json', 4, 900):
+        rej += [sel[j - 1] for j in rs['rej']]
+    ids = {s['id']: s for s in scripts}
+    seen = set()
+    for f, l in sorted(bad, key=lambda x: x[1]):
+        ln = lines[l - 1]
+        if (ln['tr'], f) in seen:
+            continue
+        seen.add((ln['tr'], f))
+        idx = [k for k, x in enumerate(lines) if x['tr'] == ln['tr']]
+        i = idx.index(l - 1)
+        chk.violation(f, 'slow-handler scenario %s step %d %s: the handler saw (kind, id, send number) %s; queued %d; accepted=%s nextId=%s' % (
+            ln['tr'], i, json.dumps(ln['act']), [(d['k'], d['id'], d['n']) for d in ln['st']['deliv']], ln['st']['hq'], ln['st']['acc'], ln['st']['nextId']),
+            {'script': {'id': ln['tr'], 'module': 'HandlerQueue', 'steps': ids[ln['tr']]['steps'][:i]}}, {'line': ln})
+    drift = sorted({lines[l - 1]['tr'] for l in rej})
+    if drift:
+        chk.notes.append('HandlerQueue conformance drift: %d rejected lines (scenarios %s)' % (len(rej), drift[:5]))
+        chk.log('DRIFT: Trace_HandlerQueue rejected %d recorded steps (scenarios %s)' % (len(rej), drift[:5]))
+        l = rej[0]
+        chk.log('  rejected: %s skip=%r\n     before %s\n     after  %s' % (lines[l - 1]['act'], lines[l - 1]['skip'], json.dumps(lines[l - 2]['st']), json.dumps(lines[l - 1]['st'])))
+    return {'slow_handler_batch': {'scenarios': len(scripts), 'lines': len(lines), 'rejected': len(rej), 'false_instances': len(bad),
+                                   'model_states': m.distinct if m else 0}}
+
+
 def main(argv):
     chk = core.Check('C17', 'model_checking', argv)
+    if chk.replay:
+        import json
+        rp = json.load(open(chk.replay))['replay'].get('script', {})
+        if rp.get('module') == 'HandlerQueue':
+            from vf import pipeline
+            lines, _ = pipeline.replay_parallel(chk, 'client', 'TestVerifReplayHandlerQueue', {}, [{'id': rp['id'], 'steps': rp['steps']}], nproc=1)
+            for sel, rs, r in pipeline.tlc_lines_parallel(chk, 'Props_HandlerQueue', 'Props_HandlerQueue.cfg', lines, 'props_result.json', 1, 600):
+                for f, j in rs['bad']:
+                    chk.violation(f, 'slow-handler scenario %s: %s' % (rp['id'], lines[sel[j - 1] - 1]['st']['deliv']), {'script': rp}, {})
+            chk.finish({'states': 0, 'transitions': 0, 'traces_validated_against_impl': 1, 'evaluations': 1, 'distinct_nontrivial': 1,
+                        'rule': 'replay of one slow-handler scenario', 'samples': [rp], 'checker_cmd': 'tlc Props_HandlerQueue', 'exhaustive': False})
+            return
     rc.standard(chk, FORMULAS,
                 lambda s: sum(1 for x in s['steps'] if x['a'] == 'Notify' and x['kind'] in ('tx', 'upd')) >= 2 and rc.has(s, 'Accept'),
                 'scenarios = TLC simulation behaviours of RemoteClient (3 call slots, keys 1..3, notification ids 1..5 incl. repeated, skipped and '
                 'out-of-order ids, drops and re-declared Ready at any point, both connection types) + directed scenarios; non-trivial = at least two '
                 'tx/update notifications on an accepted connection',
                 ['the service is one scripted loop-back peer; two handlers are registered',
-                 'a marker message that passed the routing and handler goroutines separates the steps (no wall-clock ordering)'])
+                 'a marker message that passed the routing and handler goroutines separates the steps (no wall-clock ordering)'],
+                extra=handler_queue)
